@@ -429,6 +429,10 @@ def world_violation(pid, r):
     if pid == "C03":
         if code in (1, 4) and (is_store or op == jg.JOIN) and stale:
             return "an access through a dead handle did not behave as absent (op %d: %s)" % (pos, wg.NAMES.get(op, op))
+        if code == 4 and op == wg.M and stale:
+            # (the stale flag of a maintain: one of the deferred operations it performed had a dead target)
+            return ("a deferred insert / remove whose target was dead by then did not behave as a no-op that destroys "
+                    "its value (maintain at op %d)" % pos)
     if pid == "C05":
         if code == 1 and op in (sg.GET, sg.CONT, sg.MSK, sg.CNT, sg.EMP):
             return ("component membership differs from the specification after a deletion / creation "
@@ -599,6 +603,9 @@ def nontrivial_world(pid, r):
         failing = any(o and o[0] == 2 and o[1] == 1 for o in r["impl"])
         return reuse or failing
     if pid == "C03":
+        if any(c in (sg.LINS, sg.LINSALL, sg.LREM, sg.LEXEC, wg.LC) for c, _ in r["hist"]):
+            # deferred operations: non-trivial when something is deleted as well (a target may be dead by the maintain)
+            return any(c in (wg.D, wg.DM, wg.ED, wg.DA) for c, _ in r["hist"])
         # handles in order of return, with their indices
         hs = []
         born = []
@@ -666,6 +673,13 @@ def gen_store(pid, tier, seed, scale, rng, hists, stats):
         for _ in range((150 if q else 1500) * scale):
             hists.append(sg.random_store_history(rng, rng.randint(10, 60)))
             stats["random storage histories"] += 1
+        # deferred operations whose targets die before the maintain that performs them
+        for _ in range((150 if q else 1500) * scale):
+            hists.append(sg.lazy_history(rng, rng.randint(8, 40)))
+            stats["lazy histories (targets dead by the time of the maintain)"] += 1
+        for _ in range((60 if q else 600) * scale):
+            hists.append(sg.lazy_purge_history(rng))
+            stats["lazy purge histories"] += 1
         # dead and stale handles through the join paths: lending lookup by entity, get_other / get_other_mut
         for focus in ("restrict", "join"):
             for _ in range((120 if q else 1500) * scale):
